@@ -722,7 +722,6 @@ func c13DoubleCloseThenGC(c *vf.Case, ioc *sonic.IO) {
 	runtime.GC()
 }
 
-
 // c13GCRearm: like c13GC, but the operation in flight when the references are dropped is one that was started from
 // inside the object's own completion handler (the usual read loop): first operation deferred, its completion re-issues
 // the operation, which is deferred again; only then are the references dropped and the collector run.
@@ -786,7 +785,12 @@ func c13GCRearm(c *vf.Case, ioc *sonic.IO) {
 				vfd = p.NextLayer().RawFd()
 				p.AsyncRead(make([]byte, 64), func(err error, n int, _ netip.AddrPort) {
 					first++
-					p.AsyncRead(make([]byte, 64), func(err error, n int, _ netip.AddrPort) { completed++; gotErr = err; _ = sentinel.pad[0]; _ = p.Close() })
+					p.AsyncRead(make([]byte, 64), func(err error, n int, _ netip.AddrPort) {
+						completed++
+						gotErr = err
+						_ = sentinel.pad[0]
+						_ = p.Close()
+					})
 				})
 				trigger = func() {
 					_ = syscall.Sendto(pfd, []byte("0123456789"), 0, &syscall.SockaddrInet4{Addr: [4]byte{127, 0, 0, 1}, Port: port})
@@ -1073,7 +1077,12 @@ func c13GC(c *vf.Case, ioc *sonic.IO) {
 				pfd, _, _ := rawpeer.UDP4([4]byte{127, 0, 0, 1})
 				peerFd = pfd
 				vfd = p.RawFd()
-				p.AsyncReadFrom(make([]byte, 16), func(err error, n int, _ net.Addr) { completed++; gotN, gotErr = n, err; _ = sentinel.pad[0]; _ = p.Close() })
+				p.AsyncReadFrom(make([]byte, 16), func(err error, n int, _ net.Addr) {
+					completed++
+					gotN, gotErr = n, err
+					_ = sentinel.pad[0]
+					_ = p.Close()
+				})
 				trigger = func() { _ = syscall.Sendto(pfd, []byte("0123456789"), 0, sa) }
 			case "udp-peer-read":
 				p, err := multicast.NewUDPPeer(ioc, "udp", "127.0.0.1:0")
@@ -1085,7 +1094,12 @@ func c13GC(c *vf.Case, ioc *sonic.IO) {
 				pfd, _, _ := rawpeer.UDP4([4]byte{127, 0, 0, 1})
 				peerFd = pfd
 				vfd = p.NextLayer().RawFd()
-				p.AsyncRead(make([]byte, 16), func(err error, n int, _ netip.AddrPort) { completed++; gotN, gotErr = n, err; _ = sentinel.pad[0]; _ = p.Close() })
+				p.AsyncRead(make([]byte, 16), func(err error, n int, _ netip.AddrPort) {
+					completed++
+					gotN, gotErr = n, err
+					_ = sentinel.pad[0]
+					_ = p.Close()
+				})
 				trigger = func() {
 					_ = syscall.Sendto(pfd, []byte("0123456789"), 0, &syscall.SockaddrInet4{Addr: [4]byte{127, 0, 0, 1}, Port: port})
 				}
